@@ -35,6 +35,7 @@ struct Ctx {
     sim::Gate gate;
     uint64_t ops_done = 0;
     bool two_threads = false;
+    struct aws_allocator *alloc = nullptr;
     // a logger that ships its lines through the same ring (legal on the acquiring thread): dormant unless the ring code logs
     bool ring_ready = false, in_logger = false;
     int acq_tid = -1;
@@ -112,6 +113,10 @@ void do_acquire(Ctx &c, const sim::Op &op) {
     bool must_succeed = all_returned && n <= c.ring_size;
     struct aws_byte_buf dest;
     AWS_ZERO_STRUCT(dest);
+    // the destination may be a descriptor the caller has used before, e.g. one set up with aws_byte_buf_init(&b, allocator, 0): it
+    // carries an allocator. What the ring hands out is never the caller's to free: the vended descriptor must not name an allocator.
+    const bool had_allocator = ((c.ops_done * 2654435761u) >> 7) % 4 == 0;
+    if (had_allocator) dest.allocator = c.alloc;
     void *head_before = aws_atomic_load_ptr(&c.ring.head);
     uint64_t nested_before = c.nested_acquires;
     sim::note(sim::PK_HARNESS, nullptr, upto ? 2 : 1);
@@ -119,6 +124,9 @@ void do_acquire(Ctx &c, const sim::Op &op) {
     c.ops_done++;
     if (rc == AWS_OP_SUCCESS) {
         if (upto) check_buf(c, dest, mn, n, "acquire_up_to"); else check_buf(c, dest, n, n, "acquire");
+        if (dest.allocator)
+            sim::violation("c15:owning-descriptor", "the vended buffer descriptor names an allocator (%s): aws_byte_buf_clean_up or a dynamic append on it would hand ring storage to that allocator",
+                           had_allocator ? "left over from the destination the caller passed in" : "although the destination had none");
         if (!aws_ring_buffer_buf_belongs_to_pool(&c.ring, &dest)) sim::violation("c15:belongs", "aws_ring_buffer_buf_belongs_to_pool is false for a buffer the ring has just handed out");
         check_foreign(c);
         Entry e;
@@ -137,7 +145,7 @@ void do_acquire(Ctx &c, const sim::Op &op) {
         if (must_succeed && !nested)
             sim::violation("c15:must-succeed", "acquire%s(%zu) failed although nothing is outstanding (ring size %zu, %zu acquired and released so far)",
                            upto ? "_up_to" : "", n, c.ring_size, c.entries.size());
-        if (dest.buffer || dest.len || dest.capacity) sim::violation("c15:failed-changed", "failed acquire modified the destination buffer");
+        if (dest.buffer || dest.len || dest.capacity || dest.allocator != (had_allocator ? c.alloc : nullptr)) sim::violation("c15:failed-changed", "failed acquire modified the destination buffer");
         if (!nested && aws_atomic_load_ptr(&c.ring.head) != head_before) sim::violation("c15:failed-changed", "failed acquire moved the ring head");
         sim::probe("acquire_refused");
     }
@@ -225,6 +233,7 @@ RunInfo run(const sim::Plan &plan) {
     struct aws_allocator *alloc = simalloc::create(ac);
     Ctx c;
     c.plan = &plan;
+    c.alloc = alloc;
     c.ring_size = (size_t)plan.get("ring_size", 16);
     c.two_threads = plan.get("two_threads", 1) != 0;
     sim::begin(plan);
